@@ -26,6 +26,10 @@ ROOT = os.path.dirname(os.path.dirname(os.path.abspath(__file__)))
 LEAN = os.path.join(ROOT, 'lean')
 REPO = os.environ.get('VERIF_REPO', '/repo')
 WORK = os.path.join(ROOT, '.work')
+# evidence/<id>.json describes runs against /repo itself; a mutation experiment against a scratch
+# worktree (VERIF_REPO=<dir>) writes its record under .work/ so it never replaces the committed one
+EVIDENCE = (os.path.join(ROOT, 'evidence') if os.path.realpath(REPO) == os.path.realpath('/repo')
+            else os.path.join(WORK, 'evidence-scratch'))
 ALLOWED_AXIOMS = {'propext', 'Classical.choice', 'Quot.sound'}
 FORBIDDEN = re.compile(r'\bsorry\b|\badmit\b|^\s*axiom\s|native_decide|bv_decide|implemented_by|\bunsafe\s|maxHeartbeats\s+0\b')
 
@@ -309,6 +313,16 @@ class Ctx:
                        'searched': {'evaluations': self.evaluations, 'distinct': len(self.distinct)}},
                       open(os.path.join(ROOT, replay_path), 'w'), indent=1, default=str)
             lines.append(f'VIOLATION property={prop} replay={replay_path} no-failing-input-found')
+        # keys the evidence schema types: a module's extra of another type is kept under <key>_note
+        typed = {'exhaustive': bool, 'states': int, 'transitions': int, 'programs': int, 'disagreements_checked': int,
+                 'explanation': str, 'evaluations': int, 'distinct_nontrivial': int, 'obligations': int, 'discharged': int,
+                 'traces_validated_against_impl': int, 'checker_cmd': str, 'rule': str}
+        for k, t in typed.items():
+            if k in self.extra and k != 'rule' and not (type(self.extra[k]) is t):
+                self.extra[k + '_note'] = self.extra.pop(k)
+        for k in ('evaluations', 'distinct_nontrivial', 'obligations', 'discharged', 'checker_cmd', 'trusted_base', 'samples'):
+            if k in self.extra:      # measured by this class, never overridden by a module
+                self.extra[k + '_note'] = self.extra.pop(k)
         n_obl = len(self.obligations)
         n_ok = sum(1 for _, ok, _ in self.obligations if ok)
         ev = {
@@ -331,8 +345,11 @@ class Ctx:
             'wall_s': round(time.time() - self.t0, 2),
             'violations': len(unlisted) + (1 if (not unlisted and (broken or self.mismatches)) else 0),
         }
-        os.makedirs(os.path.join(ROOT, 'evidence'), exist_ok=True)
-        json.dump(ev, open(os.path.join(ROOT, 'evidence', f'{prop}.json'), 'w'), indent=1, default=str)
+        os.makedirs(EVIDENCE, exist_ok=True)
+        tmp = os.path.join(EVIDENCE, f'.{prop}.json.{os.getpid()}')
+        with open(tmp, 'w') as f:
+            json.dump(ev, f, indent=1, default=str)
+        os.replace(tmp, os.path.join(EVIDENCE, f'{prop}.json'))
         for ln in lines:
             print(ln)
         for n, d in broken[:8]:
